@@ -39,6 +39,7 @@ fn text(s: &str) -> String {
 // Reference collector over the crate's own AST visitor.
 struct Refs {
   out: Vec<String>,    // every name mentioned; "^" appended when it carries or sits inside generic arguments
+  cfg: Vec<String>,    // names used as &name (choice from group)
   starts: Vec<String>, // names in a position from which the validators call the is_ident_* / *_from_ident helpers
   in_generic: u32,
 }
@@ -79,9 +80,13 @@ impl<'a, 'b> cddl::visitor::Visitor<'a, 'b, std::fmt::Error> for Refs {
         }
         cddl::visitor::walk_type2(self, t2)
       }
-      Type2::ChoiceFromGroup { ident, generic_args: Some(ga), .. } => {
-        self.out.push(format!("{}^", ident));
-        self.visit_generic_args(ga)
+      Type2::ChoiceFromGroup { ident, generic_args, .. } => {
+        self.cfg.push(ident.to_string());
+        if let Some(ga) = generic_args {
+          self.out.push(format!("{}^", ident));
+          return self.visit_generic_args(ga);
+        }
+        cddl::visitor::walk_type2(self, t2)
       }
       _ => cddl::visitor::walk_type2(self, t2),
     }
@@ -111,7 +116,8 @@ impl<'a, 'b> cddl::visitor::Visitor<'a, 'b, std::fmt::Error> for Refs {
 //   i-th type choice is a bare name and "-" otherwise (exactly what is_ident_* looks at);
 // ref env: one entry per rule, "name|flags:r1,r2,..." all names mentioned in the body ("^" = generic edge),
 //   flags: "<" generic parameters, "/" choice alternate (/= or //=), "(" group rule;
-// starts: names in chase start positions (control target / controller, unwrap, bareword member key).
+// starts: names in chase start positions (control target / controller, unwrap, bareword member key);
+// cfg: names used as &name.
 fn graph(t: &str) -> Option<String> {
   use cddl::ast::{Rule, Type2};
   use cddl::visitor::Visitor;
@@ -119,6 +125,7 @@ fn graph(t: &str) -> Option<String> {
   let mut alias = Vec::new();
   let mut refs = Vec::new();
   let mut starts = Vec::new();
+  let mut cfgs = Vec::new();
   for r in c.rules.iter() {
     let (name, flags) = match r {
       Rule::Type { rule, .. } => {
@@ -142,12 +149,13 @@ fn graph(t: &str) -> Option<String> {
         format!("({}{}", if rule.generic_params.is_some() { "<" } else { "" }, if rule.is_group_choice_alternate { "/" } else { "" }),
       ),
     };
-    let mut v = Refs { out: Vec::new(), starts: Vec::new(), in_generic: 0 };
+    let mut v = Refs { out: Vec::new(), cfg: Vec::new(), starts: Vec::new(), in_generic: 0 };
     let _ = v.visit_rule(r);
     refs.push(format!("{}|{}:{}", name, flags, v.out.join(",")));
     starts.append(&mut v.starts);
+    cfgs.append(&mut v.cfg);
   }
-  Some(format!("{}\t{}\t{}", alias.join(";"), refs.join(";"), starts.join(",")))
+  Some(format!("{}\t{}\t{}\t{}", alias.join(";"), refs.join(";"), starts.join(","), cfgs.join(",")))
 }
 
 fn verdict<T, E>(r: Result<T, E>) -> &'static str {
@@ -159,14 +167,15 @@ fn verdict<T, E>(r: Result<T, E>) -> &'static str {
 
 #[inline(never)]
 fn deep(n: u64) -> u64 {
-  let mut a = [n; 64];
+  let mut a = [n; 512];
   std::hint::black_box(&mut a);
   if n == u64::MAX {
     return 0;
   }
-  let r = deep(n + 1);
+  let f: fn(u64) -> u64 = std::hint::black_box(deep);
+  let r = f(n + 1);
   std::hint::black_box(&mut a);
-  r + a[(n % 64) as usize]
+  r + a[(n % 512) as usize]
 }
 
 fn dispatch(parts: &[&str]) -> &'static str {
@@ -232,6 +241,26 @@ fn cpu_us() -> Option<u128> {
   Some(ns / 1000)
 }
 
+// accurate CPU time of the calling thread (the symbol comes from the C library std links anyway)
+#[repr(C)]
+struct Timespec {
+  tv_sec: i64,
+  tv_nsec: i64,
+}
+extern "C" {
+  fn clock_gettime(clk: i32, ts: *mut Timespec) -> i32;
+}
+fn thread_cpu_us() -> Option<u128> {
+  let mut ts = Timespec { tv_sec: 0, tv_nsec: 0 };
+  // CLOCK_THREAD_CPUTIME_ID = 3 on Linux
+  let rc = unsafe { clock_gettime(3, &mut ts) };
+  if rc == 0 {
+    Some(ts.tv_sec as u128 * 1_000_000 + ts.tv_nsec as u128 / 1000)
+  } else {
+    None
+  }
+}
+
 fn main() {
   let case_ms: u64 = std::env::var("VERIF_CASE_MS").ok().and_then(|s| s.parse().ok()).unwrap_or(10000);
   std::panic::set_hook(Box::new(|info| {
@@ -286,10 +315,10 @@ fn main() {
     START_CPU_US.store(cpu_us().unwrap_or(0) as u64, Ordering::SeqCst);
     DEADLINE_MS.store(epoch.elapsed().as_millis() as u64 + 8 * case_ms + 5000, Ordering::SeqCst);
     let t0 = Instant::now();
-    let c0 = cpu_us();
+    let c0 = thread_cpu_us();
     let r = std::panic::catch_unwind(|| dispatch(&parts));
     let wall = t0.elapsed().as_micros();
-    let cpu = match (c0, cpu_us()) {
+    let cpu = match (c0, thread_cpu_us()) {
       (Some(a), Some(b)) if b >= a => b - a,
       _ => wall,
     };
